@@ -70,6 +70,7 @@ fn main() {
         match id.as_str() {
             "C04" => print_replay(&id, props::c04::replay(&name, &path)),
             "C05" => print_replay(&id, props::c05::replay(&name, &path)),
+            "C12" => print_replay(&id, props::c12::replay(&name, &path)),
             _ => {
                 eprintln!("unknown property {id}");
                 2
@@ -79,6 +80,7 @@ fn main() {
         match id.as_str() {
             "C04" => props::c04::check(&tier),
             "C05" => props::c05::check(&tier),
+            "C12" => props::c12::check(&tier),
             _ => {
                 eprintln!("unknown property {id}");
                 2
